@@ -156,6 +156,25 @@ func c12Setup(c *C12Case) (string, error) {
 			}
 			continue
 		}
+		if n.Kind == "too-deep" {
+			// nested directories whose path grows past what a path may measure (PATH_MAX): the walk cannot even look at the
+			// innermost ones. One entry that cannot be read is not a reason to give up on the directory, let alone the others
+			if n.Dir != c.MissingDir {
+				cur := filepath.Join(root, c12Dirs[n.Dir], strings.TrimSuffix(n.Name, ".toml"))
+				prev, _ := os.Getwd()
+				if os.MkdirAll(cur, 0o755) == nil && os.Chdir(cur) == nil {
+					for k := 0; k < 20; k++ {
+						seg := strings.Repeat("d", 250)
+						if os.Mkdir(seg, 0o755) != nil || os.Chdir(seg) != nil {
+							break
+						}
+					}
+					_ = os.WriteFile("deep.toml", c12NoiseContent("broken-toml", c.Query), 0o644)
+					_ = os.Chdir(prev)
+				}
+			}
+			continue
+		}
 		if n.Kind == "dangling-symlink" {
 			if n.Dir != c.MissingDir {
 				_ = os.Symlink("/nonexistent/verif-target", filepath.Join(root, c12Dirs[n.Dir], n.Name))
@@ -432,7 +451,7 @@ func firstMappingName(dc *config.DeviceConfig) string {
 }
 
 var c12NoiseKinds = []string{"broken-toml", "fails-validation", "unknown-field", "empty", "binary", "decoder-crasher", "late-decoder-crasher", "late-syntax-error", "valid-no-suffix",
-	"valid-other-suffix", "text", "dir-named-toml", "dangling-symlink", "fifo"}
+	"valid-other-suffix", "text", "dir-named-toml", "dangling-symlink", "fifo", "too-deep"}
 
 func c12NoiseName(t *rapid.T, kind string, i int) string {
 	// noise sorts before or after the candidate files (the loader walks a directory in lexical order)
